@@ -45,3 +45,29 @@ def res_kind(res):
     if res is None:
         return "none"
     return res[3] if res[0] == "def" else res[1]
+
+
+def predict_import_branch(model, order, file, name, ex):
+    """Executable model of the recorded import-branch defect (KF-C01/KF-C02 'import-first-registered'):
+    walking up from `file`, the first conftest that has no own definition of `name` (other than the excluded
+    one) but re-exports `name` makes the resolver return the FIRST definition of `name` in registration order
+    that is not the excluded one - wherever it lives.  Returns that (file, line), or None if the walk ends
+    in the normal way before reaching such a conftest."""
+    import os
+    m = model.models.get(file)
+    if m is not None and m.ok and any((file, d["line"]) != ex for d in m.defs_named(name)):
+        return None
+    cur = os.path.dirname(file)
+    while True:
+        cf = os.path.join(cur, "conftest.py")
+        cm = model.models.get(cf)
+        if cm is not None and cm.ok:
+            if cf != file and any((cf, d["line"]) != ex for d in cm.defs_named(name)):
+                return None
+            if name in model.imported_into(cf):
+                cands = [d for d in order.get(name, []) if d != ex]
+                return cands[0] if cands else None
+        parent = os.path.dirname(cur)
+        if parent == cur:
+            return None
+        cur = parent
